@@ -11,6 +11,7 @@ import Iota.Model.AsmProgram
 import Iota.Proofs.Vectors.Curl
 import Iota.Tie.CurlCodeLanes
 import Iota.Tie.CurlCodePerm
+import Iota.Tie.CurlCodeSponge
 
 namespace Iota.Tie.Curl
 open Iota
@@ -22,7 +23,8 @@ theorem constants :
 /-- the translated s-box is the model's s-box -/
 theorem sBox_eq (aL aH bL bH : BitVec 64) : Gen.Curl.sBox aL aH bL bH = Curl.sBox aL aH bL bH := rfl
 
-/-- (the functions `bool2int`, `sBox`, `Curl.in`, `Curl.out`, `Curl.Reset`, `Curl.CopyState` and `transformGeneric` are
+/-- (the functions `bool2int`, `sBox`, `Curl.in`, `Curl.out`, `Curl.Reset`, `Curl.CopyState`, `transformGeneric`, `Curl.Absorb` and
+`Curl.Squeeze` are
 translated as code, `Gen.Curl.code.*`, and tied to the model for all inputs in `Iota/Tie/CurlCode.lean`; their text is
 not pinned) -/
 
@@ -44,10 +46,8 @@ theorem asm_program : Gen.CurlAsm.program = Asm.program := by decide +kernel
 theorem src :
     Gen.Curl.src_curl_NewCurlP81 = Expect.Curl_src_curl_NewCurlP81 ∧
     Gen.Curl.src_curl_Curl_Clone = Expect.Curl_src_curl_Curl_Clone ∧
-    Gen.Curl.src_curl_Curl_Absorb = Expect.Curl_src_curl_Curl_Absorb ∧
-    Gen.Curl.src_curl_Curl_Squeeze = Expect.Curl_src_curl_Curl_Squeeze ∧
     Gen.Curl.src_curl_Curl_transform = Expect.Curl_src_curl_Curl_transform :=
-  ⟨rfl, rfl, rfl, rfl, rfl⟩
+  ⟨rfl, rfl, rfl⟩
 
 /-- everything else the package declares (imports, constants, types, variables, build constraints and the functions not
 pinned one by one) is unchanged too: no declaration of the modelled packages can change without a tie theorem failing. -/
@@ -109,5 +109,47 @@ theorem code_transformGeneric_spec (b : Curl.Bufs) :
       some ((Spec.CurlW.roundsW 81 (b.lfrom, b.hfrom)).1.toList, (Spec.CurlW.roundsW 81 (b.lfrom, b.hfrom)).2.toList,
             (Spec.CurlW.roundsW 80 (b.lfrom, b.hfrom)).1.toList, (Spec.CurlW.roundsW 80 (b.lfrom, b.hfrom)).2.toList) :=
   CurlCodePerm.transformGeneric_some b
+
+/-! ### `Absorb` and `Squeeze` translated AS CODE = the model (proofs: `Iota/Tie/CurlCodeSponge.lean`)
+`c.transform()` is not translated (its body calls the build-dependent `transform`: the assembly on amd64, C20): it is the
+first parameter of the translated methods, instantiated here by `trM` = the model's `Curl.transform` on planes given as
+lists.  `dirBV` encodes the direction (absorbing ↦ 0, squeezing ↦ 1), `tritsI` reads int8 trits as integers, `encA` /
+`encS` encode the model's outcome (error ↦ the error name with the state — and `dst` — unchanged, panic ↦ `none`). -/
+open Iota.Tie.CurlCodeSponge in
+/-- `Absorb`, every state, every batch (also of wrong size, with short lanes, in the wrong direction), every
+`tritsCount ≥ 0`: same error, same panic condition, same resulting planes as the model -/
+theorem code_absorb (c : Curl.Curl) (src : List (List (BitVec 8))) (hsrc : src.length < 2 ^ 63) (tc : BitVec 64)
+    (h0 : 0 ≤ tc.toInt) :
+    Gen.Curl.code.Curl_Absorb trM c.l.toList c.h.toList (dirBV c.direction) src tc =
+      encA c (Curl.Curl.absorb c (src.map tritsI) tc.toNat) := absorb_eq c src hsrc tc h0
+open Iota.Tie.CurlCodeSponge in
+/-- `Squeeze` likewise: planes, direction and the rows written (the trits of `outLane`, as int8) -/
+theorem code_squeeze (c : Curl.Curl) (dst : List (List (BitVec 8))) (hdst : dst.length < 2 ^ 63) (tc : BitVec 64)
+    (h0 : 0 ≤ tc.toInt) :
+    (Gen.Curl.code.Curl_Squeeze trM c.l.toList c.h.toList (dirBV c.direction) dst tc =
+      encS c dst (Curl.Curl.squeeze c dst.length tc.toNat)) ∧
+    (∀ c' out, Curl.Curl.squeeze c dst.length tc.toNat = .ok c' out →
+      (out.map (·.map (BitVec.ofInt 8))).map tritsI = out) :=
+  ⟨squeeze_eq c dst hdst tc h0, fun c' out h => squeeze_out_toInt c c' _ _ out h⟩
+open Iota.Tie.CurlCodeSponge in
+/-- the assumption under which the two block loops `for i := 0; i < tritsCount; i += 243` were translated — `i += 243`
+does not wrap around — holds behind the guard `tritsCount % 243 == 0` that precedes them: the index list of the
+translation is what the loop header computes step by step in 64-bit arithmetic -/
+theorem code_sponge_header (tc : BitVec 64) (h0 : 0 ≤ tc.toInt) (hm : tc.toNat % 243 = 0) (fuel : Nat)
+    (hf : tc.toNat / 243 < fuel) :
+    Go.loopIdx (Go.cmpUp true false tc) (· + 243#64) fuel 0#64 = Go.forUp true false 0#64 tc 243 :=
+  header_sound tc h0 hm fuel hf
+open Iota.Tie.CurlCodeSponge in
+/-- outside the property's domain, recorded for completeness: a NEGATIVE `tritsCount`.  `Absorb` returns
+`ErrInvalidTritsLength` unless it is a multiple of 243, in which case it does nothing (or panics when squeezing);
+`Squeeze` returns `ErrInvalidSqueezeLength` unless it is a multiple of 243, in which case `make` panics. -/
+theorem code_sponge_negative (tr : TR) (c_l c_h : List (BitVec 64)) (d : BitVec 64) (rows : List (List (BitVec 8)))
+    (h1 : 1 ≤ rows.length) (h64 : rows.length ≤ 64) (tc : BitVec 64) (hneg : tc.toInt < 0) :
+    (Gen.Curl.code.Curl_Absorb tr c_l c_h d rows tc =
+      if tc.toInt.tmod 243 ≠ 0 then some (some "consts.ErrInvalidTritsLength", c_l, c_h)
+      else if d ≠ 0#64 then none else some (none, c_l, c_h)) ∧
+    (Gen.Curl.code.Curl_Squeeze tr c_l c_h d rows tc =
+      if tc.toInt.tmod 243 ≠ 0 then some (some "consts.ErrInvalidSqueezeLength", c_l, c_h, d, rows) else none) :=
+  ⟨absorb_neg tr c_l c_h d rows h1 h64 tc hneg, squeeze_neg tr c_l c_h d rows h1 h64 tc hneg⟩
 
 end Iota.Tie.Curl
